@@ -251,6 +251,11 @@ def run(ctx):
     for n in sizes:
         ta, tb = confgen.gen_tables(rng, n, rng.choice([0, 2, 6, 15]) if n else rng.choice([0, 3]), null_p=rng.choice([0.0, 0.2, 0.4]))
         bases.append({"tables": [ta, tb], "queries": confgen.gen_queries(rng, ta, tb, confgen.KINDS)})
+    # wide dense keys: c5 drawn around the 2^20-key chunk boundaries of the dense direct-address GROUP BY, so its presence
+    # bitmap spans several chunks with a short tail (added after seeded change seeded/C04)
+    for n in ctx.n([9, 30], [5, 9, 20, 40, 60] * 2):
+        ta, tb = confgen.gen_tables(rng, n, 6, null_p=rng.choice([0.0, 0.2]), dense_wide=True)
+        bases.append({"tables": [ta, tb], "queries": confgen.gen_queries(rng, ta, tb, ["agg-dense"] * 4 + ["agg", "agg-intkey", "filter", "agg-join"])})
     for _ in range(ctx.n(1, 3)):
         ta, tb = confgen.gen_tables(rng, ctx.n(200, 300), 40, null_p=0.15, kr=25, wide_str=True)
         kinds = [k for k in confgen.KINDS if k not in ("cross",)]
